@@ -299,7 +299,7 @@ def gen_program(rng, tier="quick", allow_hazard=False, nsteps=None, init_rows=No
                 return True
         return False
 
-    kinds = ["partner", "cmp2", "sel", "sel", "sel", "sel", "alias", "ufs", "neg", "ufcol", "ufra", "concat", "sort", "cumsum", "diff", "where", "zeros", "unique",
+    kinds = ["concat_e", "partner", "cmp2", "sel", "sel", "sel", "sel", "alias", "ufs", "neg", "ufcol", "ufra", "concat", "sort", "cumsum", "diff", "where", "zeros", "unique",
              "assign", "assign", "assign", "maskassign", "rowwrite", "ravelwrite", "obs", "obs", "obs"]
     if isf:
         kinds = [k for k in kinds if k not in ("sort", "cumsum", "unique")] + ["ufcol", "ufcol", "ufcol"]
@@ -311,6 +311,28 @@ def gen_program(rng, tier="quick", allow_hazard=False, nsteps=None, init_rows=No
         U = env[u]
         n = len(U)
         maxl = max((len(r) for r in U), default=0)
+        if kind == "concat_e":
+            # join with an operand that contributes nothing: a selection of u's columns beyond every row (all rows empty), column-wise,
+            # or a selection of none of u's rows, row-wise.  The result is a new array with u's content, never u itself
+            if rng.random() < 0.6:
+                if n == 0:
+                    continue
+                rs_, cs_, has_, axis_ = slice(None), slice(maxl + rng.randint(0, 2), None), True, -1
+            else:
+                rs_, cs_, has_, axis_ = slice(n, None), None, False, 0
+            tu = track[u]
+            bufs = (tu.bufs | {tu.own}) if tu.maybe_lazy else {tu.own}
+            e = fresh(maybe_lazy=True, bufs=bufs)
+            env[e] = [list(r) for r in m_sel(U, rs_, cs_, has_)[1]]
+            steps.append({"op": "sel", "v": e, "u": u, "rs": rs_, "cs": cs_, "has_cs": has_})
+            materialise(u)
+            materialise(e)
+            v = fresh()
+            first = rng.random() < 0.7
+            a_, b_ = (u, e) if first else (e, u)
+            env[v] = ([list(r) for r in env[a_]] + [list(r) for r in env[b_]]) if axis_ == 0 else [list(r) + list(q) for r, q in zip(env[a_], env[b_])]
+            steps.append({"op": "concat", "v": v, "u": a_, "w": b_, "axis": axis_})
+            continue
         if kind == "partner":
             # a second, independently built array: the same cells cut into other row lengths (one cell moved to another row)
             tot_ = sum(len(r) for r in U)
